@@ -41,6 +41,9 @@ def field_cases(kind, expr, raw, fields, tagbase, values=R.BOUNDARY32):
                 sweep.append(v)
         low_tag = name in ("versionTag", "tag2", "tag3")
         def chk(o, sweep=sweep, low_tag=low_tag):
+            if o == "err:alloc":
+                return ("the reader asked for an attacker-sized allocation on an input for which the format's reference reader asks for "
+                        "none: it kept reading where the format says stop (one of the listed values was accepted)")
             toks = o.split()
             if len(toks) != len(sweep): return f"unexpected output {o[:100]!r}"
             for v, t in zip(sweep, toks):
